@@ -14,7 +14,7 @@ Local Open Scope N_scope.
     returns Ok or Err - never Panic - and keeps that state invariant. *)
 Theorem validated_never_panics_xibc_proposal : forall now s p,
   xprop_validate p = Ok tt -> xstate_wf s ->
-  handle_xprop now s p <> Panic /\ (forall s', handle_xprop now s p = Ok s' -> xstate_wf s').
+  handle_xprop now false s p <> Panic /\ (forall s', handle_xprop now false s p = Ok s' -> xstate_wf s').
 Proof.
   intros now s p Hv Hwf. pose proof (handle_xprop_safe now s p Hv Hwf) as H. split.
   - eapply osafe_not_panic; exact H.
@@ -24,24 +24,31 @@ Print Assumptions validated_never_panics_xibc_proposal.
 
 (** The four handlers separately (same statement restricted to one proposal type). *)
 Theorem validated_never_panics_create_client : forall now s t d chain cs k,
-  xprop_validate (PCreate t d chain cs k) = Ok tt -> xstate_wf s -> handle_xprop now s (PCreate t d chain cs k) <> Panic.
+  xprop_validate (PCreate t d chain cs k) = Ok tt -> xstate_wf s -> handle_xprop now false s (PCreate t d chain cs k) <> Panic.
 Proof. intros. eapply validated_never_panics_xibc_proposal; eassumption. Qed.
 Print Assumptions validated_never_panics_create_client.
 
 Theorem validated_never_panics_upgrade_client : forall now s t d chain cs k,
-  xprop_validate (PUpgrade t d chain cs k) = Ok tt -> xstate_wf s -> handle_xprop now s (PUpgrade t d chain cs k) <> Panic.
+  xprop_validate (PUpgrade t d chain cs k) = Ok tt -> xstate_wf s -> handle_xprop now false s (PUpgrade t d chain cs k) <> Panic.
 Proof. intros. eapply validated_never_panics_xibc_proposal; eassumption. Qed.
 Print Assumptions validated_never_panics_upgrade_client.
 
 Theorem validated_never_panics_toggle_client : forall now s t d chain cs k,
-  xprop_validate (PToggle t d chain cs k) = Ok tt -> xstate_wf s -> handle_xprop now s (PToggle t d chain cs k) <> Panic.
+  xprop_validate (PToggle t d chain cs k) = Ok tt -> xstate_wf s -> handle_xprop now false s (PToggle t d chain cs k) <> Panic.
 Proof. intros. eapply validated_never_panics_xibc_proposal; eassumption. Qed.
 Print Assumptions validated_never_panics_toggle_client.
 
 Theorem validated_never_panics_register_relayer : forall now s t d a chains n,
-  xprop_validate (PRelayer t d a chains n) = Ok tt -> xstate_wf s -> handle_xprop now s (PRelayer t d a chains n) <> Panic.
+  xprop_validate (PRelayer t d a chains n) = Ok tt -> xstate_wf s -> handle_xprop now false s (PRelayer t d a chains n) <> Panic.
 Proof. intros. eapply validated_never_panics_xibc_proposal; eassumption. Qed.
 Print Assumptions validated_never_panics_register_relayer.
+
+(** With the repaired recent-signer key parser (patch bsc-recent-signer-key.diff; [strict = true]) the
+    invariant is not needed: EVERY module state, including every state a validated genesis can import. *)
+Theorem validated_never_panics_xibc_proposal_any_state : forall now s p,
+  xprop_validate p = Ok tt -> handle_xprop now true s p <> Panic.
+Proof. exact handle_xprop_strict_safe. Qed.
+Print Assumptions validated_never_panics_xibc_proposal_any_state.
 
 (** Whole histories: starting from the empty module state (or any state with the invariant), any
     sequence of validated proposals executed the way gov.EndBlocker does (state kept on success,
@@ -60,7 +67,7 @@ Proof. intros st cs k Hv Hwf. eapply osafe_not_panic. apply initialize_safe; ass
 Print Assumptions validated_never_panics_initialize.
 
 Theorem validated_never_panics_upgrade_state : forall now st cs k,
-  validate_client cs = Ok tt -> store_wf st -> upgrade_state_gen now false st cs k <> Panic.
+  validate_client cs = Ok tt -> store_wf st -> upgrade_state_gen now false false st cs k <> Panic.
 Proof. intros now st cs k Hv Hwf. eapply osafe_not_panic. apply upgrade_state_safe; assumption. Qed.
 Print Assumptions validated_never_panics_upgrade_state.
 
@@ -118,7 +125,7 @@ Print Assumptions C15_panic_sites_covered.
 
 (** ** The executable monitor accepts every step of the model. *)
 Theorem C15_monitor_sound : forall now s p i,
-  xstate_wf s -> mon_steps i [(oclass (xprop_validate p), oclass (handle_xprop now s p))] = [].
+  xstate_wf s -> mon_steps i [(oclass (xprop_validate p), oclass (handle_xprop now false s p))] = [].
 Proof. intros; apply mon_steps_sound_x; assumption. Qed.
 Print Assumptions C15_monitor_sound.
 
@@ -148,6 +155,6 @@ Example C15_nonvacuous :
   (* every step really executed (returned Ok, not a swallowed Err) *)
   forallb (fun n => Nat.eqb n 0)
     (fst (fold_left (fun acc p => let '(l, s) := acc in
-                       match handle_xprop 1767225600 s p with Ok s' => (l ++ [0%nat], s') | _ => (l ++ [1%nat], s) end)
+                       match handle_xprop 1767225600 false s p with Ok s' => (l ++ [0%nat], s') | _ => (l ++ [1%nat], s) end)
                     ps ([], []))) = true.
 Proof. vm_compute. repeat split; reflexivity. Qed.
